@@ -702,8 +702,24 @@ func (x *Unit) execRange(st *State, s *ast.RangeStmt, fl *flow, label string) *S
 		switch t2 := tt.(type) {
 		case *types.Slice:
 			ln = x.u.SliceLen(coll.T)
+			// elements are read from the backing array at each iteration: when the range expression is a variable that the
+			// loop never assigns as a whole, that is the variable's current array (element writes in the body are seen)
+			var liveVar types.Object
+			if id, ok := ast.Unparen(s.X).(*ast.Ident); ok {
+				if o, ok := x.info.ObjectOf(id).(*types.Var); ok && !x.assignedWhole(s.Body, o) {
+					if _, boxed := x.boxed[o]; !boxed {
+						liveVar = o
+					}
+				}
+			}
 			elemAt = func(h *State, i T) *Val {
-				v := Val{Select(x.u.SliceArr(coll.T), i), t2.Elem()}
+				arr := x.u.SliceArr(coll.T)
+				if liveVar != nil {
+					if cur, ok := h.env[liveVar]; ok && cur.Sort == coll.Sort {
+						arr = x.u.SliceArr(cur.T)
+					}
+				}
+				v := Val{Select(arr, i), t2.Elem()}
 				x.assume(h, x.typeInv(h, v, 1))
 				return &v
 			}
@@ -1224,4 +1240,37 @@ func (x *Unit) elementOnlySlices(loop ast.Node) map[types.Object]bool {
 		}
 	}
 	return out
+}
+
+// assignedWhole: does the code assign variable o as a whole (o = ..., o, x = ..., &o, range key/value)?
+func (x *Unit) assignedWhole(body ast.Node, o types.Object) bool {
+	found := false
+	is := func(e ast.Expr) bool {
+		id, ok := ast.Unparen(e).(*ast.Ident)
+		return ok && x.info.ObjectOf(id) == o
+	}
+	ast.Inspect(body, func(n ast.Node) bool {
+		switch n := n.(type) {
+		case *ast.AssignStmt:
+			for _, l := range n.Lhs {
+				if is(l) {
+					found = true
+				}
+			}
+		case *ast.IncDecStmt:
+			if is(n.X) {
+				found = true
+			}
+		case *ast.UnaryExpr:
+			if n.Op == token.AND && is(n.X) {
+				found = true
+			}
+		case *ast.RangeStmt:
+			if (n.Key != nil && is(n.Key)) || (n.Value != nil && is(n.Value)) {
+				found = true
+			}
+		}
+		return !found
+	})
+	return found
 }
